@@ -16,7 +16,7 @@ Separate Extraction
   Default.blank Default.transpose Default.place_format
   Masking.apply_mask
   Placement.place_data Placement.select_trace
-  Score.line Score.lines_score Score.dark_score Score.squares Score.score
+  Score.line Score.lines_score Score.dark_score Score.dark_panics Score.squares Score.score
   Qr.build Qr.build_unchecked Qr.build_trace Qr.no_options
   Helpers.print_matrix_with_margin
   Builder.run_history Builder.new_builder
